@@ -21,9 +21,11 @@ def lexicon(ctx, modname, afs):
     return m, env['registers'], env['segments']
 
 
-def ptrformula_rule(ctx, R3, X):
+def ptrformula_rule(ctx, R3, X, semantic=False):
     """`SIZE PTR seg:[formula]` (the form the renderer prints): the grammar action is evaluated on every segment x address shape, including base + scaled index with ebp / esp as the
-    base written as one coefficient ([ebp+ebp*2] is {ebp: 3}).  Shared with C09.D12: the Intel rendering of a ds: override on an ss-relative address must assemble back with its prefix."""
+    base written as one coefficient ([ebp+ebp*2] is {ebp: 3}).  Shared with C09.D12: the Intel rendering of a ds: override on an ss-relative address must assemble back with its prefix.
+    semantic=True (C02.D16): an override is demanded only where dropping it changes the segment of some encoding of the address - the default segment of an encoding is ss when its base
+    register is esp / ebp and ds otherwise; any register with coefficient 1 (or 3 / 5 / 9: base = index) may be the base, a register scaled by 2 / 4 / 8 is an index."""
     from ..consteval import Evaluator, NotConst, callables_of, module_env
     pa = ctx.mod('parse_ad')
     afs, E = X.afs, X.env
@@ -40,7 +42,9 @@ def ptrformula_rule(ctx, R3, X):
                             ({5: 9}, '[ebp+ebp*8]'), ({5: 1, 0: 4}, '[ebp+eax*4]'), ({4: 1, 0: 2}, '[esp+eax*2]'), ({4: 1, 5: 8}, '[esp+ebp*8]'), ({0: 1, 1: 2}, '[eax+ecx*2]'),
                             # the same address with its two unscaled registers written in the other order (the formula keeps the order of the text)
                             ({5: 1, 0: 1}, '[ebp+eax]'), ({0: 1, 4: 1}, '[eax+esp]'), ({4: 1, 0: 1}, '[esp+eax]'), ({1: 1, 5: 1}, '[ecx+ebp]'), ({0: 4, 5: 1}, '[eax*4+ebp]'),
-                            ({afs.imm: 8, 1: 1, 4: 1}, '8[ecx+esp]'), ({1: 1, 4: 1, afs.imm: 8}, '[ecx+esp+8]')):
+                            ({afs.imm: 8, 1: 1, 4: 1}, '8[ecx+esp]'), ({1: 1, 4: 1, afs.imm: 8}, '[ecx+esp+8]'),
+                            # ebp as the (scaled) index: the default segment is that of the base
+                            ({0: 1, 5: 2}, '[eax+ebp*2]'), ({5: 2}, '[ebp*2]'), ({5: 4, afs.imm: 8}, '[ebp*4+8]'), ({1: 1, 5: 8, afs.imm: 8}, '[ecx+ebp*8+8]')):
             formula = dict(regs)
             formula.update({afs.ad: True, afs.size: True})
             if not regs:
@@ -58,8 +62,16 @@ def ptrformula_rule(ctx, R3, X):
             if res.get(afs.ad) != afs.u32:
                 problems.append('the PTR size is lost (ad = %r)' % res.get(afs.ad))
             need_seg = seg != 3 or 4 in regs or 5 in regs      # (an explicit ds: in front of any esp / ebp term is kept: with two unscaled registers either may be the base)
+            if semantic:
+                bases = [r_ for r_, k_ in regs.items() if isinstance(r_, int) and not isinstance(r_, bool) and r_ < 8 and k_ in (1, 3, 5, 9)]
+                defaults = set((2 if b_ in (4, 5) else 3) for b_ in bases) or {3}
+                need_seg = any(d_ != seg for d_ in defaults)
             if need_seg and res.get(afs.segm) != seg:
-                problems.append('the %s: override is dropped although the default segment of %s is %s' % (list(afs.reg_sg)[seg], label, 'ss' if (4 in regs or 5 in regs) else 'ds'))
+                if semantic:
+                    problems.append('the %s: override is dropped although %s has an encoding whose default segment is %s' % (list(afs.reg_sg)[seg], label,
+                                                                                                                     ' / '.join(list(afs.reg_sg)[d_] for d_ in sorted(defaults) if d_ != seg)))
+                else:
+                    problems.append('the %s: override is dropped although the default segment of %s is %s' % (list(afs.reg_sg)[seg], label, 'ss' if (4 in regs or 5 in regs) else 'ds'))
             if problems:
                 R3.violation(inst, 'ptrformula:%s:%s' % ('ds' if seg == 3 else 'seg', ';'.join(problems)[:50]), 'parsing "%s": %s' % (inst[11:], '; '.join(problems)), where(pa, ptr2),
                              witness="asm('push DWORD PTR fs:[eax]') == []" if 'size' in problems[0] else "3e 8b 45 00 re-assembles to 8b 45 00")
